@@ -31,4 +31,22 @@ PROPS = {
         "assumptions": ["advertised distance read from minimum_distance()/minimum_distance/delta/error_correction_capability; repetition codes advertise d = n by documentation only"],
         "out_of_reach": [],
     },
+    "C02": {
+        "level": "proof",
+        "trusted_base": ["C01 contract forward(m) == m.G (received words are built as m.G xor e from the published G)", "advertised capability t = floor((d-1)/2) read as in C03"],
+        "assumptions": [],
+        "out_of_reach": ["BerlekampMasseyDecoder: converts every received bit with int(round(.item())) (full concretisation) and its correctness is the Berlekamp-Massey/Chien theorem: bounded stand-in only (exhaustive over all codewords x all patterns of weight <= t where that product is small, seeded sample otherwise); its field operations are under contract in C18", "ReedMullerDecoder (majority logic): .item()-driven loops over partitions: bounded stand-in only"],
+    },
 }
+
+# per-property META dicts contributed by separate modules (vk/meta_c18.py, vk/meta_c19.py, ...)
+import importlib as _il
+import pkgutil as _pk
+import os as _os
+
+for _m in _pk.iter_modules([_os.path.dirname(__file__)]):
+    if _m.name.startswith("meta_c"):
+        try:
+            PROPS[_m.name[5:].upper()] = _il.import_module(f"vk.{_m.name}").META
+        except Exception:  # pragma: no cover
+            pass
